@@ -1,3 +1,1089 @@
-//! C08 — bounded checks (to be written)
-use crate::ctx::Ctx;
-pub fn run(_ctx: &mut Ctx) {}
+//! C08 — segmented arrays behave as lists of lists and keep their size invariant.
+//!
+//! Plain model: a segmented array of finite functions is `P { segs: Vec<Vec<usize>>, n }` (the list
+//! of segments and the codomain of the value array); a segmented array of labels is `Vec<Vec<u8>>`.
+//! Every library result is read back from its RAW public fields (`sources.table`, `sources.target`,
+//! `values`), the size invariant
+//!     sources.target == sum(sizes) + 1   and   sum(sizes) == values.len()   (and values < target)
+//! is evaluated on those raw fields, and the denoted list of slices is compared with the list-of-lists
+//! result computed by plain loops from the property statement.
+use crate::ctx::{guard, Ctx, Rng};
+use open_hypergraphs::array::vec::*;
+use open_hypergraphs::finite_function::FiniteFunction;
+use open_hypergraphs::indexed_coproduct::{HasLen, IndexedCoproduct};
+use open_hypergraphs::operations::Operations;
+use open_hypergraphs::semifinite::SemifiniteFunction;
+use serde_json::{json, Value};
+
+type FF = FiniteFunction<VecKind>;
+type SF = SemifiniteFunction<VecKind, u8>;
+type ICF = IndexedCoproduct<VecKind, FF>;
+type ICS = IndexedCoproduct<VecKind, SF>;
+type LL = Vec<Vec<u8>>;
+
+type Check = fn(&mut Ctx, &Value);
+const CHECKS: &[(&str, Check)] = &[
+    ("construct", chk_construct),
+    ("basic", chk_basic),
+    ("coproduct", chk_coproduct),
+    ("tensor", chk_tensor),
+    ("map_indexes", chk_map_indexes),
+    ("map_values", chk_map_values),
+    ("flatmap", chk_flatmap),
+    ("flatmap_sources", chk_flatmap_sources),
+    ("iterate", chk_iterate),
+    ("operations", chk_operations),
+];
+
+// ------------------------------------------------------------------------------------------------
+// plain model + JSON
+// ------------------------------------------------------------------------------------------------
+#[derive(Clone, Debug, PartialEq, Eq)]
+struct P {
+    segs: Vec<Vec<usize>>,
+    n: usize,
+}
+
+fn us(v: &Value) -> Option<Vec<usize>> {
+    v.as_array()?.iter().map(|x| x.as_u64().map(|y| y as usize)).collect()
+}
+fn uss(v: &Value) -> Option<Vec<Vec<usize>>> {
+    v.as_array()?.iter().map(us).collect()
+}
+fn u8s(v: &Value) -> Option<Vec<u8>> {
+    v.as_array()?.iter().map(|x| x.as_u64().filter(|&y| y < 256).map(|y| y as u8)).collect()
+}
+fn u8ss(v: &Value) -> Option<LL> {
+    v.as_array()?.iter().map(u8s).collect()
+}
+fn num(v: &Value) -> Option<usize> {
+    v.as_u64().map(|x| x as usize)
+}
+
+/// label used for value `v` when an index array is re-read as a label array
+fn lab(v: usize) -> u8 {
+    (v as u8).wrapping_mul(3).wrapping_add(100)
+}
+
+impl P {
+    fn json(&self) -> Value {
+        json!({"segs": self.segs, "n": self.n})
+    }
+    fn from_json(v: &Value) -> Option<P> {
+        let p = P { segs: uss(v.get("segs")?)?, n: num(v.get("n")?)? };
+        if p.segs.iter().flatten().all(|&x| x < p.n) && p.total() < 100_000 {
+            Some(p)
+        } else {
+            None
+        }
+    }
+    fn sizes(&self) -> Vec<usize> {
+        self.segs.iter().map(|s| s.len()).collect()
+    }
+    fn flat(&self) -> Vec<usize> {
+        self.segs.iter().flatten().cloned().collect()
+    }
+    fn total(&self) -> usize {
+        self.segs.iter().map(|s| s.len()).sum()
+    }
+    fn labels(&self) -> LL {
+        self.segs.iter().map(|s| s.iter().map(|&v| lab(v)).collect()).collect()
+    }
+    /// non-trivial: at least two segments, at least one value and at least one empty or >1 segment
+    fn nontrivial(&self) -> bool {
+        self.segs.len() >= 2 && self.total() >= 1
+    }
+}
+
+fn ll_json(l: &LL) -> Value {
+    json!(l)
+}
+
+fn mk_ff(vals: &[usize], n: usize) -> FF {
+    FiniteFunction::new(VecArray(vals.to_vec()), n).expect("precondition: values in range")
+}
+fn mk_sf(vals: &[u8]) -> SF {
+    SemifiniteFunction(VecArray(vals.to_vec()))
+}
+
+/// the size invariant on raw fields
+fn invariant(sizes: &[usize], st: usize, vlen: usize) -> Result<(), String> {
+    let sum: usize = sizes.iter().sum();
+    if st != sum + 1 {
+        return Err(format!("sources.target {} != sum of sizes {} + 1", st, sum));
+    }
+    if sum != vlen {
+        return Err(format!("sum of sizes {} != values length {}", sum, vlen));
+    }
+    Ok(())
+}
+
+fn split<T: Clone>(sizes: &[usize], vals: &[T]) -> Vec<Vec<T>> {
+    let mut out = vec![];
+    let mut p = 0usize;
+    for &k in sizes {
+        out.push(vals[p..p + k].to_vec());
+        p += k;
+    }
+    out
+}
+
+/// read a library value back (raw fields): invariant, then the denoted list of slices
+fn read_f(c: &ICF) -> Result<P, String> {
+    invariant(&c.sources.table.0, c.sources.target, c.values.table.0.len())?;
+    if let Some(v) = c.values.table.0.iter().find(|&&v| v >= c.values.target) {
+        return Err(format!("value {} not below values.target {}", v, c.values.target));
+    }
+    Ok(P { segs: split(&c.sources.table.0, &c.values.table.0), n: c.values.target })
+}
+fn read_s(c: &ICS) -> Result<LL, String> {
+    invariant(&c.sources.table.0, c.sources.target, c.values.0 .0.len())?;
+    Ok(split(&c.sources.table.0, &c.values.0 .0))
+}
+fn raw_f(c: &ICF) -> Value {
+    json!({"sizes": c.sources.table.0, "sources.target": c.sources.target, "values": c.values.table.0, "values.target": c.values.target})
+}
+fn raw_s(c: &ICS) -> Value {
+    json!({"sizes": c.sources.table.0, "sources.target": c.sources.target, "values": c.values.0 .0})
+}
+
+/// build the library value for a plain one through the checked constructor; a refusal or a wrong
+/// denotation is itself a violation of the construction clause
+fn build_f(ctx: &mut Ctx, check: &str, input: &Value, p: &P) -> Option<ICF> {
+    let (sizes, flat, n) = (p.sizes(), p.flat(), p.n);
+    let r = guard(|| IndexedCoproduct::from_semifinite(SemifiniteFunction(VecArray(sizes)), mk_ff(&flat, n)));
+    match r {
+        Ok(Some(c)) => match read_f(&c) {
+            Ok(q) if q == *p => Some(c),
+            Ok(q) => {
+                ctx.fail(check, "C08.construct-denotes", input, q.json(), p.json());
+                None
+            }
+            Err(e) => {
+                ctx.fail(check, "C08.construct-invariant", input, json!(e), p.json());
+                None
+            }
+        },
+        Ok(None) => {
+            ctx.fail(check, "C08.construct-accepts", input, json!("None"), p.json());
+            None
+        }
+        Err(e) => {
+            ctx.fail(check, "C08.construct-no-panic", input, json!(e), p.json());
+            None
+        }
+    }
+}
+fn build_s(ctx: &mut Ctx, check: &str, input: &Value, l: &LL) -> Option<ICS> {
+    let sizes: Vec<usize> = l.iter().map(|s| s.len()).collect();
+    let flat: Vec<u8> = l.iter().flatten().cloned().collect();
+    let r = guard(|| IndexedCoproduct::from_semifinite(SemifiniteFunction(VecArray(sizes)), mk_sf(&flat)));
+    match r {
+        Ok(Some(c)) => match read_s(&c) {
+            Ok(q) if q == *l => Some(c),
+            Ok(q) => {
+                ctx.fail(check, "C08.construct-denotes", input, ll_json(&q), ll_json(l));
+                None
+            }
+            Err(e) => {
+                ctx.fail(check, "C08.construct-invariant", input, json!(e), ll_json(l));
+                None
+            }
+        },
+        Ok(None) => {
+            ctx.fail(check, "C08.construct-accepts", input, json!("None"), ll_json(l));
+            None
+        }
+        Err(e) => {
+            ctx.fail(check, "C08.construct-no-panic", input, json!(e), ll_json(l));
+            None
+        }
+    }
+}
+
+/// compare a (guarded) library result with the expected list of lists; `exp == None` means the
+/// operation must refuse
+fn cmp_f(ctx: &mut Ctx, check: &str, op: &str, input: &Value, got: Result<Option<ICF>, String>, exp: Option<&P>) {
+    let cl = |s: &str| format!("C08.{}-{}", op, s);
+    let expj = exp.map(|p| p.json()).unwrap_or(json!("None"));
+    match (got, exp) {
+        (Err(e), _) => ctx.fail(check, &cl("no-panic"), input, json!(format!("panic: {}", e)), expj),
+        (Ok(None), None) => {}
+        (Ok(None), Some(_)) => ctx.fail(check, &cl("defined"), input, json!("None"), expj),
+        (Ok(Some(c)), None) => ctx.fail(check, &cl("defined"), input, raw_f(&c), expj),
+        (Ok(Some(c)), Some(p)) => match read_f(&c) {
+            Err(e) => ctx.fail(check, &cl("invariant"), input, json!({"why": e, "raw": raw_f(&c)}), expj),
+            Ok(q) => {
+                if q != *p {
+                    ctx.fail(check, &cl("denotes"), input, q.json(), expj);
+                }
+                let (l1, l2) = (c.len(), HasLen::len(&c));
+                if l1 != p.segs.len() || l2 != p.segs.len() {
+                    ctx.fail(check, &cl("len"), input, json!([l1, l2]), json!(p.segs.len()));
+                }
+            }
+        },
+    }
+}
+fn cmp_s(ctx: &mut Ctx, check: &str, op: &str, input: &Value, got: Result<Option<ICS>, String>, exp: Option<&LL>) {
+    let cl = |s: &str| format!("C08.{}-{}", op, s);
+    let expj = exp.map(ll_json).unwrap_or(json!("None"));
+    match (got, exp) {
+        (Err(e), _) => ctx.fail(check, &cl("no-panic"), input, json!(format!("panic: {}", e)), expj),
+        (Ok(None), None) => {}
+        (Ok(None), Some(_)) => ctx.fail(check, &cl("defined"), input, json!("None"), expj),
+        (Ok(Some(c)), None) => ctx.fail(check, &cl("defined"), input, raw_s(&c), expj),
+        (Ok(Some(c)), Some(p)) => match read_s(&c) {
+            Err(e) => ctx.fail(check, &cl("invariant"), input, json!({"why": e, "raw": raw_s(&c)}), expj),
+            Ok(q) => {
+                if q != *p {
+                    ctx.fail(check, &cl("denotes"), input, ll_json(&q), expj);
+                }
+                let (l1, l2) = (c.len(), HasLen::len(&c));
+                if l1 != p.len() || l2 != p.len() {
+                    ctx.fail(check, &cl("len"), input, json!([l1, l2]), json!(p.len()));
+                }
+            }
+        },
+    }
+}
+
+// ------------------------------------------------------------------------------------------------
+// checks
+// ------------------------------------------------------------------------------------------------
+
+/// input: {"sizes": [..], "st": codomain of the size map, "vals": [..], "n": codomain of vals}
+/// checked construction accepts exactly sum(sizes) == len(vals) (and st == sum + 1)
+fn chk_construct(ctx: &mut Ctx, input: &Value) {
+    const C: &str = "construct";
+    let (sizes, st, vals, n) = match (us(&input["sizes"]), num(&input["st"]), us(&input["vals"]), num(&input["n"])) {
+        (Some(a), Some(b), Some(c), Some(d)) if c.iter().all(|&v| v < d) && a.iter().all(|&k| k < 10_000) && a.len() < 10_000 => (a, b, c, d),
+        _ => return,
+    };
+    ctx.case(C, input, !sizes.is_empty() && !vals.is_empty());
+    let sum: usize = sizes.iter().sum();
+    let fits = sum == vals.len();
+    let labels: Vec<u8> = vals.iter().map(|&v| lab(v)).collect();
+    let exp_f = if fits { Some(P { segs: split(&sizes, &vals), n }) } else { None };
+    let exp_s = if fits { Some(split(&sizes, &labels)) } else { None };
+
+    // `new`: the caller supplies the codomain of the size map
+    let ok_new = fits && st == sum + 1;
+    let r = guard(|| ICF::new(FiniteFunction { table: VecArray(sizes.clone()), target: st }, mk_ff(&vals, n)));
+    cmp_f(ctx, C, "new", input, r, if ok_new { exp_f.as_ref() } else { None });
+    let r = guard(|| ICS::new(FiniteFunction { table: VecArray(sizes.clone()), target: st }, mk_sf(&labels)));
+    cmp_s(ctx, C, "new-labels", input, r, if ok_new { exp_s.as_ref() } else { None });
+
+    // `from_semifinite`: the codomain is computed (result must carry sum + 1, checked by the invariant)
+    let r = guard(|| ICF::from_semifinite(SemifiniteFunction(VecArray(sizes.clone())), mk_ff(&vals, n)));
+    cmp_f(ctx, C, "from_semifinite", input, r, exp_f.as_ref());
+    let r = guard(|| ICS::from_semifinite(SemifiniteFunction(VecArray(sizes.clone())), mk_sf(&labels)));
+    cmp_s(ctx, C, "from_semifinite-labels", input, r, exp_s.as_ref());
+}
+
+/// input: {"vals": [..], "n": k} — singleton, elements (both flavours) and initial(n)
+fn chk_basic(ctx: &mut Ctx, input: &Value) {
+    const C: &str = "basic";
+    let (vals, n) = match (us(&input["vals"]), num(&input["n"])) {
+        (Some(c), Some(d)) if c.iter().all(|&v| v < d) => (c, d),
+        _ => return,
+    };
+    ctx.case(C, input, vals.len() >= 2);
+    let labels: Vec<u8> = vals.iter().map(|&v| lab(v)).collect();
+
+    let r = guard(|| Some(ICF::singleton(mk_ff(&vals, n))));
+    cmp_f(ctx, C, "singleton", input, r, Some(&P { segs: vec![vals.clone()], n }));
+    let r = guard(|| Some(ICS::singleton(mk_sf(&labels))));
+    cmp_s(ctx, C, "singleton-labels", input, r, Some(&vec![labels.clone()]));
+
+    let r = guard(|| Some(ICF::elements(mk_ff(&vals, n))));
+    cmp_f(ctx, C, "elements", input, r, Some(&P { segs: vals.iter().map(|&v| vec![v]).collect(), n }));
+    let r = guard(|| Some(ICS::elements(mk_sf(&labels))));
+    cmp_s(ctx, C, "elements-labels", input, r, Some(&labels.iter().map(|&v| vec![v]).collect()));
+
+    let r = guard(|| Some(ICF::initial(n)));
+    cmp_f(ctx, C, "initial", input, r, Some(&P { segs: vec![], n }));
+}
+
+fn two(input: &Value) -> Option<(P, P)> {
+    Some((P::from_json(input.get("a")?)?, P::from_json(input.get("b")?)?))
+}
+
+/// input: {"a": P, "b": P} — coproduct = list concatenation (defined iff same value codomain;
+/// always defined for label arrays)
+fn chk_coproduct(ctx: &mut Ctx, input: &Value) {
+    const C: &str = "coproduct";
+    let (a, b) = match two(input) {
+        Some(x) => x,
+        None => return,
+    };
+    ctx.case(C, input, a.nontrivial() && b.nontrivial() && a.n == b.n);
+    let exp = if a.n == b.n { Some(P { segs: [a.segs.clone(), b.segs.clone()].concat(), n: a.n }) } else { None };
+    if let (Some(ca), Some(cb)) = (build_f(ctx, C, input, &a), build_f(ctx, C, input, &b)) {
+        let r = guard(|| ca.coproduct(&cb));
+        cmp_f(ctx, C, "coproduct", input, r, exp.as_ref());
+    }
+    let (la, lb) = (a.labels(), b.labels());
+    let exps: LL = [la.clone(), lb.clone()].concat();
+    if let (Some(ca), Some(cb)) = (build_s(ctx, C, input, &la), build_s(ctx, C, input, &lb)) {
+        let r = guard(|| ca.coproduct(&cb));
+        cmp_s(ctx, C, "coproduct-labels", input, r, Some(&exps));
+    }
+}
+
+/// input: {"a": P, "b": P} — tensor = list concatenation with b's values shifted by a's codomain
+fn chk_tensor(ctx: &mut Ctx, input: &Value) {
+    const C: &str = "tensor";
+    let (a, b) = match two(input) {
+        Some(x) => x,
+        None => return,
+    };
+    ctx.case(C, input, a.nontrivial() && b.nontrivial());
+    let mut segs = a.segs.clone();
+    for s in &b.segs {
+        segs.push(s.iter().map(|&v| v + a.n).collect());
+    }
+    let exp = P { segs, n: a.n + b.n };
+    if let (Some(ca), Some(cb)) = (build_f(ctx, C, input, &a), build_f(ctx, C, input, &b)) {
+        let r = guard(|| Some(ca.tensor(&cb)));
+        cmp_f(ctx, C, "tensor", input, r, Some(&exp));
+    }
+}
+
+/// input: {"a": P, "x": [..], "xn": k} — re-indexing along x : len(x) -> xn; result[i] = a[x[i]];
+/// defined iff xn is the number of segments of a
+fn chk_map_indexes(ctx: &mut Ctx, input: &Value) {
+    const C: &str = "map_indexes";
+    let (a, x, xn) = match (input.get("a").and_then(P::from_json), us(&input["x"]), num(&input["xn"])) {
+        (Some(a), Some(x), Some(xn)) if x.iter().all(|&v| v < xn) => (a, x, xn),
+        _ => return,
+    };
+    let defined = xn == a.segs.len();
+    let mut seen = vec![false; xn];
+    let mut injective = true;
+    for &i in &x {
+        injective &= !seen[i];
+        seen[i] = true;
+    }
+    ctx.case(C, input, defined && a.nontrivial() && !x.is_empty() && !(injective && x.windows(2).all(|w| w[0] < w[1])));
+    let exp = if defined { Some(P { segs: x.iter().map(|&i| a.segs[i].clone()).collect(), n: a.n }) } else { None };
+    let fx = mk_ff(&x, xn);
+    if let Some(ca) = build_f(ctx, C, input, &a) {
+        let r = guard(|| ca.map_indexes(&fx));
+        cmp_f(ctx, C, "map_indexes", input, r, exp.as_ref());
+        // values only
+        let r = guard(|| ca.indexed_values(&fx));
+        let expv = exp.as_ref().map(|p| (p.flat(), p.n));
+        match (r, expv) {
+            (Err(e), _) => ctx.fail(C, "C08.indexed_values-no-panic", input, json!(e), json!(null)),
+            (Ok(None), None) => {}
+            (Ok(None), Some(e)) => ctx.fail(C, "C08.indexed_values-defined", input, json!("None"), json!(e)),
+            (Ok(Some(f)), None) => ctx.fail(C, "C08.indexed_values-defined", input, json!([f.table.0, f.target]), json!("None")),
+            (Ok(Some(f)), Some(e)) => {
+                if (f.table.0.clone(), f.target) != e {
+                    ctx.fail(C, "C08.indexed_values-denotes", input, json!([f.table.0, f.target]), json!(e));
+                }
+            }
+        }
+    }
+    let la = a.labels();
+    let exps: Option<LL> = if defined { Some(x.iter().map(|&i| la[i].clone()).collect()) } else { None };
+    if let Some(ca) = build_s(ctx, C, input, &la) {
+        let r = guard(|| ca.map_indexes(&fx));
+        cmp_s(ctx, C, "map_indexes-labels", input, r, exps.as_ref());
+        let r = guard(|| ca.indexed_values(&fx));
+        let expv: Option<Vec<u8>> = exps.as_ref().map(|l| l.iter().flatten().cloned().collect());
+        match (r, expv) {
+            (Err(e), _) => ctx.fail(C, "C08.indexed_values-labels-no-panic", input, json!(e), json!(null)),
+            (Ok(None), None) => {}
+            (Ok(None), Some(e)) => ctx.fail(C, "C08.indexed_values-labels-defined", input, json!("None"), json!(e)),
+            (Ok(Some(f)), None) => ctx.fail(C, "C08.indexed_values-labels-defined", input, json!(f.0 .0), json!("None")),
+            (Ok(Some(f)), Some(e)) => {
+                if f.0 .0 != e {
+                    ctx.fail(C, "C08.indexed_values-labels-denotes", input, json!(f.0 .0), json!(e));
+                }
+            }
+        }
+    }
+}
+
+/// input: {"a": P, "f": [..], "fn": k} — map every value through f : len(f) -> fn (finite function)
+/// and through the label array lab∘f; defined iff len(f) == a.n; segment sizes unchanged
+fn chk_map_values(ctx: &mut Ctx, input: &Value) {
+    const C: &str = "map_values";
+    let (a, f, fnn) = match (input.get("a").and_then(P::from_json), us(&input["f"]), num(&input["fn"])) {
+        (Some(a), Some(f), Some(k)) if f.iter().all(|&v| v < k) => (a, f, k),
+        _ => return,
+    };
+    let defined = f.len() == a.n;
+    ctx.case(C, input, defined && a.nontrivial());
+    if let Some(ca) = build_f(ctx, C, input, &a) {
+        let exp = if defined { Some(P { segs: a.segs.iter().map(|s| s.iter().map(|&v| f[v]).collect()).collect(), n: fnn }) } else { None };
+        let ff = mk_ff(&f, fnn);
+        let r = guard(|| ca.map_values(&ff));
+        cmp_f(ctx, C, "map_values", input, r, exp.as_ref());
+
+        let fl: Vec<u8> = f.iter().map(|&v| lab(v)).collect();
+        let exps: Option<LL> = if defined { Some(a.segs.iter().map(|s| s.iter().map(|&v| fl[v]).collect()).collect()) } else { None };
+        let sf = mk_sf(&fl);
+        let r = guard(|| ca.map_semifinite(&sf));
+        cmp_s(ctx, C, "map_semifinite", input, r, exps.as_ref());
+    }
+}
+
+/// input: {"a": P, "b": P} with a.n == number of segments of b —
+/// flatmap: result[i] = concatenation over v in a[i] of b[v]
+fn chk_flatmap(ctx: &mut Ctx, input: &Value) {
+    const C: &str = "flatmap";
+    let (a, b) = match two(input) {
+        Some((a, b)) if a.n == b.segs.len() => (a, b),
+        _ => return,
+    };
+    ctx.case(C, input, a.nontrivial() && b.nontrivial());
+    let mut segs = vec![];
+    for s in &a.segs {
+        let mut out = vec![];
+        for &v in s {
+            out.extend(b.segs[v].iter().cloned());
+        }
+        segs.push(out);
+    }
+    let exp = P { segs, n: b.n };
+    if let (Some(ca), Some(cb)) = (build_f(ctx, C, input, &a), build_f(ctx, C, input, &b)) {
+        let r = guard(|| Some(ca.flatmap(&cb)));
+        cmp_f(ctx, C, "flatmap", input, r, Some(&exp));
+    }
+}
+
+/// input: {"a": P, "b": P} with (total number of values of a) == number of segments of b —
+/// flatmap_sources: segment i of the result is the concatenation of the next len(a[i]) segments of b.
+/// evaluated for a, b as finite functions and as label arrays (4 combinations)
+fn chk_flatmap_sources(ctx: &mut Ctx, input: &Value) {
+    const C: &str = "flatmap_sources";
+    let (a, b) = match two(input) {
+        Some((a, b)) if a.total() == b.segs.len() => (a, b),
+        _ => return,
+    };
+    ctx.case(C, input, a.nontrivial() && b.nontrivial());
+    let mut segs = vec![];
+    let mut p = 0usize;
+    for s in &a.segs {
+        let mut out = vec![];
+        for j in p..p + s.len() {
+            out.extend(b.segs[j].iter().cloned());
+        }
+        p += s.len();
+        segs.push(out);
+    }
+    let exp = P { segs, n: b.n };
+    let exps = exp.labels();
+    let (la, lb) = (a.labels(), b.labels());
+    let (fa, fb) = (build_f(ctx, C, input, &a), build_f(ctx, C, input, &b));
+    let (sa, sb) = (build_s(ctx, C, input, &la), build_s(ctx, C, input, &lb));
+    if let (Some(fa), Some(fb), Some(sa), Some(sb)) = (fa, fb, sa, sb) {
+        let r = guard(|| Some(fa.flatmap_sources(&fb)));
+        cmp_f(ctx, C, "flatmap_sources", input, r, Some(&exp));
+        let r = guard(|| Some(sa.flatmap_sources(&fb)));
+        cmp_f(ctx, C, "flatmap_sources-lf", input, r, Some(&exp));
+        let r = guard(|| Some(fa.flatmap_sources(&sb)));
+        cmp_s(ctx, C, "flatmap_sources-fl", input, r, Some(&exps));
+        let r = guard(|| Some(sa.flatmap_sources(&sb)));
+        cmp_s(ctx, C, "flatmap_sources-ll", input, r, Some(&exps));
+    }
+}
+
+/// input: {"a": P} — the three iterators: every slice once, in order; before every step (and after
+/// the end) the reported number of remaining slices is exact
+fn chk_iterate(ctx: &mut Ctx, input: &Value) {
+    const C: &str = "iterate";
+    let a = match input.get("a").and_then(P::from_json) {
+        Some(a) => a,
+        None => return,
+    };
+    ctx.case(C, input, a.nontrivial());
+    let k = a.segs.len();
+    let la = a.labels();
+    // expected trace: (remaining before the step, slice)
+    let exp_trace = |segs: &Vec<Value>| -> Value {
+        let mut t: Vec<Value> = segs.iter().enumerate().map(|(i, s)| json!({"len": k - i, "hint": [k - i, k - i], "item": s})).collect();
+        t.push(json!({"len": 0, "hint": [0, 0], "item": null}));
+        t.push(json!({"len": 0, "hint": [0, 0], "item": null}));
+        json!(t)
+    };
+    let hint = |h: (usize, Option<usize>)| json!([h.0, h.1]);
+
+    if let Some(c) = build_f(ctx, C, input, &a) {
+        let r = guard(|| {
+            let mut it = c.clone().into_iter();
+            let mut t = vec![];
+            for _ in 0..k + 2 {
+                let (l, h) = (it.len(), it.size_hint());
+                match it.next() {
+                    Some(f) => t.push(json!({"len": l, "hint": hint(h), "item": {"table": f.table.0, "target": f.target}})),
+                    None => t.push(json!({"len": l, "hint": hint(h), "item": null})),
+                }
+            }
+            let extra = it.next().is_some();
+            (json!(t), extra)
+        });
+        let exp = exp_trace(&a.segs.iter().map(|s| json!({"table": s, "target": a.n})).collect());
+        match r {
+            Err(e) => ctx.fail(C, "C08.iter-ff-no-panic", input, json!(e), exp),
+            Ok((t, extra)) => {
+                if t != exp || extra {
+                    ctx.fail(C, "C08.iter-ff-trace", input, json!({"trace": t, "yields_more": extra}), exp);
+                }
+            }
+        }
+        // plain collect (uses size_hint for allocation) and count
+        let r = guard(|| c.clone().into_iter().map(|f| f.table.0).collect::<Vec<_>>());
+        match r {
+            Err(e) => ctx.fail(C, "C08.iter-ff-no-panic", input, json!(e), json!(a.segs)),
+            Ok(v) => {
+                if v != a.segs {
+                    ctx.fail(C, "C08.iter-ff-collect", input, json!(v), json!(a.segs));
+                }
+            }
+        }
+    }
+    if let Some(c) = build_s(ctx, C, input, &la) {
+        let r = guard(|| {
+            let mut it = c.clone().into_iter();
+            let mut t = vec![];
+            for _ in 0..k + 2 {
+                let (l, h) = (it.len(), it.size_hint());
+                match it.next() {
+                    Some(f) => t.push(json!({"len": l, "hint": hint(h), "item": f.0 .0})),
+                    None => t.push(json!({"len": l, "hint": hint(h), "item": null})),
+                }
+            }
+            let extra = it.next().is_some();
+            (json!(t), extra)
+        });
+        let exp = exp_trace(&la.iter().map(|s| json!(s)).collect());
+        match r {
+            Err(e) => ctx.fail(C, "C08.iter-labels-no-panic", input, json!(e), exp.clone()),
+            Ok((t, extra)) => {
+                if t != exp || extra {
+                    ctx.fail(C, "C08.iter-labels-trace", input, json!({"trace": t, "yields_more": extra}), exp.clone());
+                }
+            }
+        }
+        // borrowed slices
+        let r = guard(|| {
+            let mut it = c.iter();
+            let mut t = vec![];
+            for _ in 0..k + 2 {
+                let h = it.size_hint();
+                match it.next() {
+                    Some(s) => t.push(json!({"len": h.0, "hint": hint(h), "item": s})),
+                    None => t.push(json!({"len": h.0, "hint": hint(h), "item": null})),
+                }
+            }
+            let extra = it.next().is_some();
+            (json!(t), extra)
+        });
+        match r {
+            Err(e) => ctx.fail(C, "C08.iter-slices-no-panic", input, json!(e), exp),
+            Ok((t, extra)) => {
+                if t != exp || extra {
+                    ctx.fail(C, "C08.iter-slices-trace", input, json!({"trace": t, "yields_more": extra}), exp);
+                }
+            }
+        }
+    }
+}
+
+/// input: {"x": [labels], "a": [[labels]..], "b": [[labels]..]} — an operation batch is accepted iff
+/// it has one source type and one target type per label; its per-operation view yields
+/// (label, source type, target type) in order; a one-element batch equals `singleton`
+fn chk_operations(ctx: &mut Ctx, input: &Value) {
+    const C: &str = "operations";
+    let (x, a, b) = match (u8s(&input["x"]), u8ss(&input["a"]), u8ss(&input["b"])) {
+        (Some(x), Some(a), Some(b)) => (x, a, b),
+        _ => return,
+    };
+    let ok = x.len() == a.len() && x.len() == b.len();
+    ctx.case(C, input, ok && x.len() >= 2 && a != b);
+    let (ca, cb) = match (build_s(ctx, C, input, &a), build_s(ctx, C, input, &b)) {
+        (Some(p), Some(q)) => (p, q),
+        _ => return,
+    };
+    let triples = |x: &Vec<u8>, a: &LL, b: &LL| -> Value { json!((0..x.len()).map(|i| json!([x[i], a[i], b[i]])).collect::<Vec<_>>()) };
+    let view = |ops: &Operations<VecKind, u8, u8>| -> Value { json!(ops.iter().map(|(l, s, t)| json!([l, s, t])).collect::<Vec<_>>()) };
+    let r = guard(|| Operations::<VecKind, u8, u8>::new(mk_sf(&x), ca.clone(), cb.clone()));
+    match r {
+        Err(e) => ctx.fail(C, "C08.operations-no-panic", input, json!(e), json!(ok)),
+        Ok(None) => {
+            if ok {
+                ctx.fail(C, "C08.operations-accepts", input, json!("None"), json!("Some"));
+            }
+        }
+        Ok(Some(ops)) => {
+            if !ok {
+                ctx.fail(C, "C08.operations-accepts", input, json!("Some"), json!("None"));
+            } else {
+                let exp = triples(&x, &a, &b);
+                match guard(|| (view(&ops), ops.len(), ops.iter().size_hint())) {
+                    Err(e) => ctx.fail(C, "C08.operations-no-panic", input, json!(e), exp),
+                    Ok((v, l, h)) => {
+                        if v != exp {
+                            ctx.fail(C, "C08.operations-view", input, v, exp);
+                        }
+                        if l != x.len() || h != (x.len(), Some(x.len())) {
+                            ctx.fail(C, "C08.operations-len", input, json!([l, h.0, h.1]), json!(x.len()));
+                        }
+                    }
+                }
+                // stored columns keep the invariant and denote the same lists
+                match (read_s(&ops.a), read_s(&ops.b)) {
+                    (Ok(ra), Ok(rb)) if ra == a && rb == b && ops.x.0 .0 == x => {}
+                    (ra, rb) => ctx.fail(C, "C08.operations-columns", input, json!([format!("{:?}", ra), format!("{:?}", rb), ops.x.0 .0]), json!([a, b, x])),
+                }
+            }
+        }
+    }
+    if ok && x.len() == 1 {
+        let r = guard(|| Operations::<VecKind, u8, u8>::singleton(x[0], mk_sf(&a[0]), mk_sf(&b[0])));
+        let exp = triples(&x, &a, &b);
+        match r {
+            Err(e) => ctx.fail(C, "C08.operations-singleton-no-panic", input, json!(e), exp),
+            Ok(ops) => match (read_s(&ops.a), read_s(&ops.b)) {
+                (Ok(ra), Ok(rb)) => {
+                    let v = guard(|| view(&ops)).unwrap_or(json!("panic"));
+                    if ra != a || rb != b || ops.x.0 .0 != x || v != exp || ops.len() != 1 {
+                        ctx.fail(C, "C08.operations-singleton-denotes", input, json!({"a": ra, "b": rb, "x": ops.x.0 .0, "view": v}), exp);
+                    }
+                }
+                (ra, rb) => ctx.fail(C, "C08.operations-singleton-invariant", input, json!([format!("{:?}", ra), format!("{:?}", rb)]), exp),
+            },
+        }
+    }
+}
+
+// ------------------------------------------------------------------------------------------------
+// generators
+// ------------------------------------------------------------------------------------------------
+
+/// all lists of length `len` over 0..n
+fn tuples(len: usize, n: usize) -> Vec<Vec<usize>> {
+    let mut out = vec![vec![]];
+    for _ in 0..len {
+        let mut next = vec![];
+        for t in &out {
+            for v in 0..n {
+                let mut u: Vec<usize> = t.clone();
+                u.push(v);
+                next.push(u);
+            }
+        }
+        out = next;
+    }
+    out
+}
+
+/// all P with at most `max_segs` segments, each of length at most `max_size`, codomain exactly n
+fn all_ps(max_segs: usize, max_size: usize, n: usize) -> Vec<P> {
+    let mut one: Vec<Vec<usize>> = vec![];
+    for l in 0..=max_size {
+        one.extend(tuples(l, n));
+    }
+    let mut out = vec![];
+    let mut cur: Vec<Vec<Vec<usize>>> = vec![vec![]];
+    out.push(P { segs: vec![], n });
+    for _ in 0..max_segs {
+        let mut next = vec![];
+        for p in &cur {
+            for s in &one {
+                let mut q = p.clone();
+                q.push(s.clone());
+                next.push(q);
+            }
+        }
+        for q in &next {
+            out.push(P { segs: q.clone(), n });
+        }
+        cur = next;
+    }
+    out
+}
+
+fn small_ps(max_segs: usize, max_size: usize, max_n: usize) -> Vec<P> {
+    (0..=max_n).flat_map(|n| all_ps(max_segs, max_size, n)).collect()
+}
+
+/// random P with exactly `k` segments and codomain n; segment sizes biased towards 0 and repeats
+fn rand_p_with(r: &mut Rng, k: usize, max_size: usize, n: usize) -> P {
+    let mode = r.below(4);
+    let segs = (0..k)
+        .map(|_| {
+            let l = if n == 0 {
+                0
+            } else {
+                match mode {
+                    0 => r.range(0, max_size),
+                    1 => {
+                        if r.chance(1, 2) {
+                            0
+                        } else {
+                            r.range(1, max_size.max(1))
+                        }
+                    }
+                    2 => r.range(0, 1),
+                    _ => r.range(0, max_size),
+                }
+            };
+            if mode == 3 && n > 0 {
+                let v = r.below(n);
+                vec![v; l] // duplicate entries
+            } else {
+                r.vec_below(l, n.max(1))
+            }
+        })
+        .collect();
+    P { segs, n }
+}
+fn rand_p(r: &mut Rng, max_segs: usize, max_size: usize, max_n: usize) -> P {
+    let k = r.range(0, max_segs);
+    let n = r.range(0, max_n);
+    rand_p_with(r, k, max_size, n)
+}
+/// random P whose total number of values is exactly `total` (random cut points, empty segments allowed)
+fn rand_p_total(r: &mut Rng, total: usize, n: usize) -> P {
+    let mut segs: Vec<Vec<usize>> = vec![];
+    let mut left = total;
+    while left > 0 {
+        let l = r.range(0, left.min(3));
+        segs.push(r.vec_below(l, n.max(1)));
+        left -= l;
+    }
+    for _ in 0..r.below(3) {
+        let at = r.below(segs.len() + 1);
+        segs.insert(at, vec![]);
+    }
+    P { segs, n }
+}
+
+fn corner_ps() -> Vec<P> {
+    vec![
+        P { segs: vec![], n: 0 },
+        P { segs: vec![], n: 3 },
+        P { segs: vec![vec![]], n: 0 },
+        P { segs: vec![vec![]], n: 2 },
+        P { segs: vec![vec![], vec![], vec![]], n: 0 },
+        P { segs: vec![vec![], vec![], vec![]], n: 1 },
+        P { segs: vec![vec![0]], n: 1 },
+        P { segs: vec![vec![0, 0, 0]], n: 1 },
+        P { segs: vec![vec![], vec![1, 0]], n: 2 },
+        P { segs: vec![vec![1, 0], vec![]], n: 2 },
+        P { segs: vec![vec![], vec![2], vec![], vec![], vec![0, 1], vec![]], n: 3 },
+        P { segs: vec![vec![0], vec![1], vec![2]], n: 3 },
+        P { segs: vec![vec![2], vec![1], vec![0]], n: 3 },
+        P { segs: vec![vec![0, 1, 2]], n: 3 },
+        P { segs: vec![vec![0, 1, 2]], n: 7 },
+        P { segs: vec![vec![1, 1], vec![1, 1], vec![1]], n: 2 },
+        P { segs: vec![vec![3, 1, 2], vec![0], vec![], vec![2, 2, 0, 1]], n: 4 },
+        P { segs: vec![vec![0; 9], vec![], vec![4, 3, 2, 1, 0]], n: 5 },
+        P { segs: (0..12).map(|i| (0..(i % 4)).map(|j| (i + j) % 6).collect()).collect(), n: 6 },
+    ]
+}
+
+pub fn run(ctx: &mut Ctx) {
+    if let Some((name, input)) = ctx.replay.clone() {
+        for (n, c) in CHECKS {
+            if *n == name {
+                c(ctx, &input);
+            }
+        }
+        return;
+    }
+    let thorough = ctx.thorough();
+    let corners = corner_ps();
+    // exhaustive families
+    let tiny = small_ps(2, 2, 2); // <=2 segments of length <=2 over codomain <=2
+    let small = small_ps(3, 2, 2); // <=3 segments
+    let unary: Vec<P> = if thorough { [small_ps(3, 2, 2), all_ps(2, 3, 3), all_ps(4, 1, 2)].concat() } else { small.clone() };
+
+    // ---- construct ---------------------------------------------------------------------------
+    // exhaustive: sizes of length <=3 over 0..=3, value arrays of length 0..=5, st in 0..=sum+2
+    for l in 0..=3usize {
+        for sizes in tuples(l, 4) {
+            let sum: usize = sizes.iter().sum();
+            for vl in 0..=5usize {
+                if !thorough && vl != sum && vl != sum + 1 && vl + 1 != sum && vl != 0 {
+                    continue;
+                }
+                let vals: Vec<usize> = (0..vl).map(|i| (i * 2 + 1) % 3).collect();
+                for st in 0..=sum + 2 {
+                    chk_construct(ctx, &json!({"sizes": sizes, "st": st, "vals": vals, "n": 3}));
+                }
+                chk_construct(ctx, &json!({"sizes": sizes, "st": vl + 1, "vals": vals, "n": 3}));
+            }
+        }
+    }
+    for p in corners.iter().chain(small.iter()) {
+        let sum = p.total();
+        for st in [0, sum, sum + 1, sum + 2] {
+            chk_construct(ctx, &json!({"sizes": p.sizes(), "st": st, "vals": p.flat(), "n": p.n}));
+        }
+    }
+    for _ in 0..ctx.budget(6000, 200000) {
+        let p = rand_p(&mut ctx.rng, 6, 3, 4);
+        let mut sizes = p.sizes();
+        let mut vals = p.flat();
+        let mut n = p.n;
+        // perturb: sizes entry +-1, value array longer/shorter, or keep
+        match ctx.rng.below(5) {
+            0 if !sizes.is_empty() => {
+                let i = ctx.rng.below(sizes.len());
+                sizes[i] += 1;
+            }
+            1 if !sizes.is_empty() => {
+                let i = ctx.rng.below(sizes.len());
+                sizes[i] = sizes[i].saturating_sub(1);
+            }
+            2 => {
+                n = n.max(1);
+                vals.push(0);
+            }
+            3 => {
+                vals.pop();
+            }
+            _ => {}
+        }
+        let sum: usize = sizes.iter().sum();
+        let st = match ctx.rng.below(6) {
+            0 => sum,
+            1 => sum + 2,
+            2 => vals.len() + 1,
+            _ => sum + 1,
+        };
+        chk_construct(ctx, &json!({"sizes": sizes, "st": st, "vals": vals, "n": n}));
+    }
+
+    // ---- basic -------------------------------------------------------------------------------
+    for n in 0..=3usize {
+        for l in 0..=(if thorough { 5 } else { 4 }) {
+            for vals in tuples(l, n) {
+                chk_basic(ctx, &json!({"vals": vals, "n": n}));
+            }
+        }
+        chk_basic(ctx, &json!({"vals": [], "n": n + 4}));
+    }
+    for _ in 0..ctx.budget(1000, 30000) {
+        let n = ctx.rng.range(1, 9);
+        let l = ctx.rng.range(0, 12);
+        let vals = ctx.rng.vec_below(l, n);
+        chk_basic(ctx, &json!({"vals": vals, "n": n}));
+    }
+
+    // ---- coproduct / tensor ------------------------------------------------------------------
+    let bin: &Vec<P> = if thorough { &small } else { &tiny };
+    for a in bin.iter().chain(corners.iter()) {
+        for b in bin.iter().chain(corners.iter()) {
+            let inp = json!({"a": a.json(), "b": b.json()});
+            if a.n == b.n || (a.segs.len() + b.segs.len() <= 2) {
+                chk_coproduct(ctx, &inp);
+            }
+            if thorough || a.segs.len() + b.segs.len() <= 3 || (a.segs.len() > 3 && b.segs.len() > 3) {
+                chk_tensor(ctx, &inp);
+            }
+        }
+    }
+    for _ in 0..ctx.budget(6000, 250000) {
+        let a = rand_p(&mut ctx.rng, 5, 3, 4);
+        let b = if ctx.rng.chance(5, 6) {
+            let k = ctx.rng.range(0, 5);
+            rand_p_with(&mut ctx.rng, k, 3, a.n)
+        } else {
+            rand_p(&mut ctx.rng, 5, 3, 4)
+        };
+        chk_coproduct(ctx, &json!({"a": a.json(), "b": b.json()}));
+        let b = rand_p(&mut ctx.rng, 5, 3, 4);
+        chk_tensor(ctx, &json!({"a": a.json(), "b": b.json()}));
+    }
+
+    // ---- map_indexes -------------------------------------------------------------------------
+    // exhaustive: every small a, every x : w -> len(a) with w <= 3 (w <= 4 thorough), plus wrong codomains
+    for a in unary.iter().chain(corners.iter()) {
+        let k = a.segs.len();
+        let wmax = if k > 4 { 1 } else if thorough { 4 } else { 3 };
+        for w in 0..=wmax {
+            for x in tuples(w, k) {
+                chk_map_indexes(ctx, &json!({"a": a.json(), "x": x, "xn": k}));
+            }
+        }
+        chk_map_indexes(ctx, &json!({"a": a.json(), "x": [], "xn": k + 1}));
+        if k > 0 {
+            chk_map_indexes(ctx, &json!({"a": a.json(), "x": [0], "xn": k + 1}));
+            chk_map_indexes(ctx, &json!({"a": a.json(), "x": vec![0; k - 1], "xn": k - 1 + (k == 1) as usize * 2}));
+            // identity, reversal, rotation, constant maps, doubled identity
+            let id: Vec<usize> = (0..k).collect();
+            let rev: Vec<usize> = (0..k).rev().collect();
+            let rot: Vec<usize> = (0..k).map(|i| (i + 1) % k).collect();
+            let dbl: Vec<usize> = id.iter().chain(id.iter()).cloned().collect();
+            let many = vec![k - 1; 2 * k + 3];
+            for x in [id, rev, rot, dbl, many] {
+                chk_map_indexes(ctx, &json!({"a": a.json(), "x": x, "xn": k}));
+            }
+        }
+    }
+    for _ in 0..ctx.budget(10000, 400000) {
+        let a = rand_p(&mut ctx.rng, 6, 3, 4);
+        let k = a.segs.len();
+        let (x, xn) = match ctx.rng.below(8) {
+            0 => {
+                let xn = if ctx.rng.chance(1, 2) { k + 1 } else { k.saturating_sub(1) };
+                let w = if xn == 0 { 0 } else { ctx.rng.range(0, 4) };
+                (ctx.rng.vec_below(w, xn.max(1)), xn)
+            }
+            1 if k > 0 => {
+                // a permutation
+                let mut p: Vec<usize> = (0..k).collect();
+                for i in (1..k).rev() {
+                    let j = ctx.rng.below(i + 1);
+                    p.swap(i, j);
+                }
+                (p, k)
+            }
+            _ => {
+                let w = if k == 0 { 0 } else { ctx.rng.range(0, 8) };
+                (ctx.rng.vec_below(w, k.max(1)), k)
+            }
+        };
+        chk_map_indexes(ctx, &json!({"a": a.json(), "x": x, "xn": xn}));
+    }
+
+    // ---- map_values --------------------------------------------------------------------------
+    for a in small.iter().chain(corners.iter()) {
+        if a.n <= 3 {
+            for m in 0..=2usize {
+                if a.n > 0 && m == 0 {
+                    continue;
+                }
+                for f in tuples(a.n, m) {
+                    chk_map_values(ctx, &json!({"a": a.json(), "f": f, "fn": m}));
+                }
+            }
+        }
+        // wrong domain
+        chk_map_values(ctx, &json!({"a": a.json(), "f": vec![0; a.n + 1], "fn": 1}));
+        if a.n > 0 {
+            chk_map_values(ctx, &json!({"a": a.json(), "f": vec![0; a.n - 1], "fn": 1}));
+        }
+    }
+    for _ in 0..ctx.budget(6000, 250000) {
+        let a = rand_p(&mut ctx.rng, 6, 3, 5);
+        let m = ctx.rng.range(if a.n > 0 { 1 } else { 0 }, 6);
+        let l = match ctx.rng.below(10) {
+            0 => a.n + 1,
+            1 => a.n.saturating_sub(1),
+            _ => a.n,
+        };
+        let f = if m == 0 { vec![] } else { ctx.rng.vec_below(l, m) };
+        chk_map_values(ctx, &json!({"a": a.json(), "f": f, "fn": m}));
+    }
+
+    // ---- flatmap -----------------------------------------------------------------------------
+    // exhaustive: b over the tiny family (<=2 segments), a over all lists with <=2 (3 thorough) segments of
+    // length <=2 into len(b)
+    for b in tiny.iter().chain(corners.iter()) {
+        let k = b.segs.len();
+        if k > 4 {
+            continue;
+        }
+        for a in all_ps(if thorough { 3 } else { 2 }, 2, k) {
+            chk_flatmap(ctx, &json!({"a": a.json(), "b": b.json()}));
+        }
+    }
+    for b in corners.iter() {
+        // identity-like and constant a
+        let k = b.segs.len();
+        let a1 = P { segs: (0..k).map(|i| vec![i]).collect(), n: k };
+        let a2 = P { segs: vec![(0..k).collect(), vec![], (0..k).rev().collect()], n: k };
+        let a3 = P { segs: vec![], n: k };
+        for a in [a1, a2, a3] {
+            chk_flatmap(ctx, &json!({"a": a.json(), "b": b.json()}));
+        }
+    }
+    for _ in 0..ctx.budget(10000, 400000) {
+        let b = rand_p(&mut ctx.rng, 5, 3, 4);
+        let k = ctx.rng.range(0, 5);
+        let a = rand_p_with(&mut ctx.rng, k, 4, b.segs.len());
+        chk_flatmap(ctx, &json!({"a": a.json(), "b": b.json()}));
+    }
+
+    // ---- flatmap_sources ---------------------------------------------------------------------
+    for a in tiny.iter().chain(corners.iter()) {
+        let t = a.total();
+        if t > 4 {
+            // one fixed b
+            let b = P { segs: (0..t).map(|i| (0..(i % 3)).map(|j| (i + j) % 2).collect()).collect(), n: 2 };
+            chk_flatmap_sources(ctx, &json!({"a": a.json(), "b": b.json()}));
+            continue;
+        }
+        // every b with t segments of length <= 1 (<=2 thorough when t <= 3) over codomain 2, and over codomain 0
+        let ms = if thorough && t <= 3 { 2 } else { 1 };
+        for b in all_ps(t, ms, 2).into_iter().filter(|b| b.segs.len() == t) {
+            chk_flatmap_sources(ctx, &json!({"a": a.json(), "b": b.json()}));
+        }
+        let b0 = P { segs: vec![vec![]; t], n: 0 };
+        chk_flatmap_sources(ctx, &json!({"a": a.json(), "b": b0.json()}));
+    }
+    for _ in 0..ctx.budget(8000, 300000) {
+        let a = rand_p(&mut ctx.rng, 5, 3, 4);
+        let n = ctx.rng.range(0, 4);
+        let t = a.total();
+        let b = rand_p_with(&mut ctx.rng, t, 3, n);
+        chk_flatmap_sources(ctx, &json!({"a": a.json(), "b": b.json()}));
+        // the other way round: fix b, cut its index set at random
+        let b = rand_p(&mut ctx.rng, 6, 3, 4);
+        let a = rand_p_total(&mut ctx.rng, b.segs.len(), 3);
+        chk_flatmap_sources(ctx, &json!({"a": a.json(), "b": b.json()}));
+    }
+
+    // ---- iterate -----------------------------------------------------------------------------
+    for a in unary.iter().chain(corners.iter()) {
+        chk_iterate(ctx, &json!({"a": a.json()}));
+    }
+    for _ in 0..ctx.budget(4000, 100000) {
+        let a = rand_p(&mut ctx.rng, 9, 4, 5);
+        chk_iterate(ctx, &json!({"a": a.json()}));
+    }
+
+    // ---- operations --------------------------------------------------------------------------
+    // exhaustive on lengths: |x|, |a|, |b| in 0..=3 with fixed contents; then contents at random
+    for lx in 0..=3usize {
+        for la in 0..=3usize {
+            for lb in 0..=3usize {
+                let x: Vec<u8> = (0..lx).map(|i| 10 + i as u8).collect();
+                let a: LL = (0..la).map(|i| (0..(i + 1) % 3).map(|j| (i + j) as u8).collect()).collect();
+                let b: LL = (0..lb).map(|i| (0..(i + 2) % 3).map(|j| (7 + i * 2 + j) as u8).collect()).collect();
+                chk_operations(ctx, &json!({"x": x, "a": a, "b": b}));
+            }
+        }
+    }
+    for _ in 0..ctx.budget(5000, 150000) {
+        let k = ctx.rng.range(0, 5);
+        let pa = rand_p_with(&mut ctx.rng, k, 3, 3);
+        let kb = if ctx.rng.chance(1, 8) { ctx.rng.range(0, 5) } else { k };
+        let pb = rand_p_with(&mut ctx.rng, kb, 3, 3);
+        let kx = if ctx.rng.chance(1, 8) { ctx.rng.range(0, 5) } else { k };
+        let x: Vec<u8> = (0..kx).map(|_| ctx.rng.below(3) as u8 + 10).collect();
+        let a: LL = pa.segs.iter().map(|s| s.iter().map(|&v| v as u8).collect()).collect();
+        let b: LL = pb.segs.iter().map(|s| s.iter().map(|&v| v as u8).collect()).collect();
+        chk_operations(ctx, &json!({"x": x, "a": a, "b": b}));
+    }
+
+    ctx.notes.push(
+        "rule: plain lists of lists P{segs,n} (finite-function flavour) and their relabelling lab(v)=3v+100 (label flavour); \
+         exhaustive: all P with <=3 segments of length <=2 over codomain <=2 (quick; thorough adds <=2 segs of length<=3 over 3 and <=4 segs of length<=1) \
+         for iterate/map_indexes (x all maps w->len, w<=3 quick / <=4 thorough, plus identity/reversal/rotation/doubled/constant/wrong-codomain), \
+         map_values (all f: n->m, m<=2), pairs of the <=2-segment family (quick) / <=3-segment family (thorough) for coproduct/tensor, \
+         flatmap: b in <=2-segment family x all a with <=2(3) segments of length<=2; flatmap_sources: a in <=2-segment family x all b with total(a) segments of length<=1(2); \
+         construct: all size lists of length<=3 over 0..3 x value lengths 0..5 x st in 0..sum+2; operations: all length triples in 0..3; \
+         random: <=6 segments (iterate <=9) of length<=3(4) over codomain<=4(5), re-index width<=8, incl. permutations, duplicates-only segments, empty segments, wrong codomains; \
+         19 fixed corners; non-trivial = >=2 segments and >=1 value on every operand (map_indexes: additionally x non-empty and not strictly increasing)"
+            .into(),
+    );
+}
